@@ -491,9 +491,9 @@ def effective_allow_py(arg):
 # running the implementation with a spy on find_class
 # ---------------------------------------------------------------------------
 
-def real_load(data, safe=None, file_obj=None):
+def real_load(data, safe=None, file_obj=None, both=False):
     """-> dict(cls, exc, calls=[(m, n, returned?)], result, objs={id: (m, n)});
-    file_obj: load through pickle_load(file_obj=...) instead of pickle_load(content)"""
+    file_obj: load through pickle_load(file_obj=...) instead of pickle_load(content); both: pickle_load(data, file_obj)"""
     from deepdiff.serialization import _RestrictedUnpickler, pickle_load
     calls = []
     objs = {}
@@ -515,7 +515,9 @@ def real_load(data, safe=None, file_obj=None):
     with mock.patch.object(_RestrictedUnpickler, "find_class", spy), \
             mock.patch.object(_RestrictedUnpickler, "persistent_load", spy_pl):
         try:
-            if file_obj is not None:
+            if both:
+                out["result"] = pickle_load(data, file_obj, safe_to_import=safe)
+            elif file_obj is not None:
                 out["result"] = pickle_load(file_obj=file_obj, safe_to_import=safe)
             else:
                 out["result"] = pickle_load(data, safe_to_import=safe)
@@ -2151,6 +2153,320 @@ def own_dumps_part(ctx):
 
 
 # ---------------------------------------------------------------------------
+# source tie: harness/translate/unpickler.py regenerates SAFE_TO_IMPORT, _RestrictedUnpickler.__init__ / find_class /
+# persistent_load and pickle_load from the current source (DDGen.PickleGen); coq/srctie/PickleGenEquiv.v proves them
+# equal to Vm.v / Bytes.v for all arguments and transfers the theorems of Properties/C15.v (core.source_tie_step)
+# ---------------------------------------------------------------------------
+
+SOURCE_TIES = [{"name": "unpickler", "translator": "unpickler", "gen_module": "PickleGen", "equiv": ["PickleGenEquiv"],
+                "needs": ["Pickle.SrcPrimsFacts"],
+                "sources": ["deepdiff/serialization.py", "deepdiff/delta.py", "deepdiff/helper.py"],
+                "fragment": "serialization.py: the literal SAFE_TO_IMPORT, _RestrictedUnpickler.__init__ / find_class / persistent_load, "
+                            "pickle_load (+ structural checks: the class subclasses pickle.Unpickler and overrides nothing else, no other "
+                            "use of the pickle module in the package, helper.strings)"}]
+
+
+def _pyv_of(arg):
+    """a safe_to_import argument as a term of Pickle/SrcPrims.pyv"""
+    def s(x):
+        return "(VStr %s)" % core.coq_pystr(x)
+    if arg is None:
+        return "VNone"
+    if isinstance(arg, str):
+        return s(arg)
+    k = {set: "VSet", frozenset: "VFrozenset", list: "VList", tuple: "VTuple"}[type(arg)]
+    items = sorted(arg) if isinstance(arg, (set, frozenset)) else list(arg)
+    return "(%s [%s])" % (k, "; ".join(s(x) for x in items))
+
+
+def _hand_allow_list():
+    txt = open(os.path.join(core.THEORIES, "Pickle", "Vm.v")).read()
+    m = _re.search(r"Definition SAFE_TO_IMPORT : list pystr := map s2p \[(.*?)\]\.", txt, _re.S)
+    return _re.findall(r'"([^"]*)"', m.group(1)) if m else []
+
+
+def tie_pairs(cfgs):
+    """(module, name) pairs on which the generated and the hand-written resolver are compared: every way of cutting every entry
+    of both allow-lists (and of the safe_to_import configurations) at a dot, near-misses of them, the pairs the program
+    generator uses, and the cross product of the decision stream's synthetic modules and look-alike names"""
+    try:
+        from deepdiff.serialization import SAFE_TO_IMPORT
+        entries = set(x for x in SAFE_TO_IMPORT if isinstance(x, str))
+    except Exception:  # noqa
+        entries = set()
+    entries |= set(_hand_allow_list())
+    for _n, arg, _c in cfgs:
+        try:
+            entries |= set(x for x in effective_allow_py(arg) if isinstance(x, str))
+        except Exception:  # noqa
+            pass
+    pairs = []
+    for s in sorted(entries):
+        pairs += splits(s)
+        pairs += [(s, "x"), ("", s), (s.split(".")[0], s), (s, ""), (s.lower(), "x")]
+        for m, n in splits(s):
+            pairs += [(m, n + "x"), (m + "x", n), (m, n[:-1]), (m.upper(), n), (m, n.lower()), (n, m), (m + "." + n, n)]
+    pairs += ALLOWED_G + JOIN_ALIKE_G + SOMETIMES_G + FORBIDDEN_G
+    pairs += [(m, n) for m in EXTRA_MODULES for n in LOOKALIKE]
+    seen, out = set(), []
+    for p in pairs:
+        if p not in seen:
+            seen.add(p)
+            out.append(p)
+    return out
+
+
+def global_payload(m, n):
+    """the shortest pickle that asks find_class for (m, n)"""
+    enc = lambda s: s.encode("utf-8", "surrogatepass")    # noqa: E731
+    plain = all(s and "\n" not in s and all(32 <= ord(c) < 127 for c in s) for s in (m, n))
+    if plain:
+        return [("GLOBAL", m, n), ("STOP",)]
+    if len(enc(m)) < 256 and len(enc(n)) < 256:
+        return [("PROTO", 4), ("SHORT_BINUNICODE", m), ("SHORT_BINUNICODE", n), ("STACK_GLOBAL",), ("STOP",)]
+    return [("PROTO", 4), ("BINUNICODE", m), ("BINUNICODE", n), ("STACK_GLOBAL",), ("STOP",)]
+
+
+TIE_PIDS = ["<<NoneType>>", "<<NoneType>", "<NoneType>>", "<<nonetype>>", "NoneType", "", "<<NoneType>> ", "<<NoneType>>x"] + PID_POOL[:12]
+
+
+def _coq_pyv_content(kind, data):
+    if kind == "none":
+        return "VNone"
+    if kind == "bytes":
+        return "(VBytes %s)" % coq_bytes(data)
+    if kind == "str":
+        return "(VStr %s)" % core.coq_pystr(data.decode("ascii"))
+    raise ValueError(kind)
+
+
+def tie_loads():
+    """(content kind, content bytes, file bytes or None) variants of the arguments of pickle_load"""
+    sel = ALLOWED_G[:5] + SOMETIMES_G + FORBIDDEN_G[:5] + JOIN_ALIKE_G[:2]
+    out = [("bytes", b"", None), ("str", b"", None), ("none", b"", None), ("none", b"", b""), ("bytes", b"N.", None), ("str", b"N.", None),
+           ("none", b"", b"N."), ("bytes", b"", b"N."), ("str", b"", b"N.")]
+    for m, n in sel:
+        p = assemble([("GLOBAL", m, n), ("STOP",)])
+        out += [("bytes", p, None), ("str", p, None), ("none", b"", p), ("bytes", b"", p), ("bytes", p, b"N."), ("bytes", b"N.", p)]
+    return out
+
+
+TIE_HEADER_DEFS = r"""
+Definition proc_of (mods : list pystr) (found : list (pystr * pystr * Z)) : process :=
+  fun m => if mem_str m mods then
+             Some (fun n => match find (fun t => pystr_eqb (fst (fst t)) m && pystr_eqb (snd (fst t)) n) found with
+                            | Some t => Some (gk (snd t)) | None => None end)
+           else None.
+Definition tie_env (mods : list pystr) (found : list (pystr * pystr * Z)) : env :=
+  mkEnv (proc_of mods found) (fun _ _ _ => true) (fun _ _ => true) [] (fun _ => None) (c_dialect no_text).
+"""
+H_LOAD_DEF = r"""
+(* the hand-written model's reading of pickle_load(content, file_obj): Bytes.load_content on the (UTF-8 encoded) content
+   when it is non-empty, otherwise the machine on the file object's bytes, otherwise the ValueError *)
+Inductive tie_arg := TNone | TBytes (b : list N) | TStr (s : pystr).
+Definition h_load (w : world) (content : tie_arg) (file : option (list N)) : result :=
+  let d := c_dialect no_text in
+  let b := match content with TNone => [] | TBytes b => b | TStr s => utf8_enc s end in
+  match b, file with
+  | [], Some f => bytes_run w d f
+  | _, _ => load_content w d b
+  end.
+"""
+
+
+def _tie_eval(ctx, cfgs, pairs, loads, pids):
+    """one Coq evaluation: the indices on which generated and hand-written definitions differ.
+    -> {"fc": {ci: [i]}, "load": {ci: [i]}, "pid": [i]} or None when the evaluation itself failed"""
+    gen_dir = os.path.join(ctx.scratch, "srctie")
+    ctx.ensure_built("From DD Require Import Pickle.PickleShow Pickle.PickleProofs Pickle.SrcPrims.")
+    L = ["From Coq Require Import List String ZArith NArith Bool.", "Import ListNotations.", "From DD Require Import Base.Sx.",
+         world_header(cfgs).replace("Pickle.PickleProofs.", "Pickle.PickleProofs Pickle.SrcPrims."),
+         "From DDGen Require Import PickleGen.", TIE_HEADER_DEFS, H_LOAD_DEF]
+    L.append("Definition PAIRS : list (pystr * pystr) := [%s]." % "; ".join(
+        "(%s, %s)" % (core.coq_pystr(m), core.coq_pystr(n)) for m, n in pairs))
+    L.append("Definition fcz (r : option fc_res) : Z := match r with Some (FCResolved k) => gk_code k | Some FCForbidden => 10 "
+             "| Some FCNoModule => 11 | Some FCNoAttr => 12 | None => (-1) end.")
+    L.append("Definition idx_diff {A : Type} (f g : A -> sx) (l : list A) : list sx :=\n"
+             "  let all := (fix go (i : Z) (l : list A) : list sx := match l with [] => [] | x :: r => if sx_eqb (f x) (g x) then go (i + 1) r "
+             "else SZ i :: go (i + 1) r end) 0 l in SZ (Z.of_nat (List.length all)) :: firstn 60 all.")
+    L.append("Definition rz (r : option result) : sx := match r with Some x => SL [sx_result true x; sx_result_fine x] | None => SA \"none\" end.")
+
+    def targ(kind, data):
+        return "TNone" if kind == "none" else "(TBytes %s)" % coq_bytes(data) if kind == "bytes" else "(TStr %s)" % core.coq_pystr(data.decode("ascii"))
+    L.append("Definition LOADS : list ((pyv * pyv) * (tie_arg * option (list N))) := [%s]." % "; ".join(
+        "((%s, %s), (%s, %s))" % (_coq_pyv_content(k, d), "VNone" if f is None else "(VFile %s)" % coq_bytes(f),
+                                  targ(k, d), "None" if f is None else "(Some %s)" % coq_bytes(f)) for k, d, f in loads))
+
+    def cobj(p):
+        return "(OStr %s)" % core.coq_pystr(p)
+    L.append("Definition PIDS : list obj := [%s]." % "; ".join(
+        [cobj(p) for p in pids] + ["ONone", "(OInt 0)", "(OBytes %s)" % core.coq_pystr("<<NoneType>>"), "(OTuple [%s])" % cobj("<<NoneType>>"),
+                                  "ONoneType", "(OBool true)"]))
+    parts = []
+    for ci, (_nm, arg, _coq) in enumerate(cfgs):
+        L.append("Definition ARG%d : pyv := %s." % (ci, _pyv_of(arg)))
+        L.append("Definition W%d : world := table_world ALLOW%d MODS%d FOUND%d [] [] [] []." % (ci, ci, ci, ci))
+        parts.append("SL (idx_diff (fun q => SZ (fcz (fc_of (g_find_class (proc_of MODS%d FOUND%d) (g_init_allow (Some ARG%d)) (fst q) (snd q))))) "
+                     "(fun q => SZ (fcz (Some (find_class W%d (fst q) (snd q))))) PAIRS)" % (ci, ci, ci, ci))
+        parts.append("SL (idx_diff (fun q => rz (result_of (g_pickle_load (tie_env MODS%d FOUND%d) (fst (fst q)) (snd (fst q)) ARG%d))) "
+                     "(fun q => rz (Some (h_load W%d (fst (snd q)) (snd (snd q))))) LOADS)" % (ci, ci, ci, ci))
+    parts.append("SL (idx_diff (fun p => sx_obj (g_persistent_load p)) (fun p => sx_obj (persistent_load p)) PIDS)")
+    # the keyword absent: __init__ without safe_to_import (the default of kwargs.pop)
+    parts.append("SL (idx_diff (fun q => SZ (fcz (fc_of (g_find_class (proc_of MODS0 FOUND0) (g_init_allow None) (fst q) (snd q))))) "
+                 "(fun q => SZ (fcz (Some (find_class W0 (fst q) (snd q))))) PAIRS)")
+    L.append("Local Open Scope string_scope.")
+    L.append('Eval vm_compute in ("BEGIN" ++ nl ++ show_sx (SL [%s]) ++ "END").' % "; ".join(parts))
+    fn = os.path.join(ctx.scratch, "tie_c15_diff.v")
+    with open(fn, "w") as f:
+        f.write("\n".join(L) + "\n")
+    rc, out = core.sh("ulimit -s 4000000 2>/dev/null || ulimit -s unlimited 2>/dev/null; coqc -Q %s DD -Q %s DDGen %s" % (
+        core.THEORIES, gen_dir, fn), timeout=900, cwd=ctx.scratch)
+    m = _re.search(r'"BEGIN\s*\n(.*)END"', out, _re.S)
+    if rc != 0 or not m:
+        return None, out[-1500:]
+    groups = _re.findall(r"\(([-0-9 \n]*)\)", m.group(1))
+    nums = [[int(x) for x in g.split()] for g in groups]       # each group: total number of differences, then the first 60 indices
+    res = {"fc": {}, "load": {}, "pid": [], "fc_absent": [], "totals": {"find_class": 0, "pickle_load": 0, "persistent_load": 0}}
+    for ci in range(len(cfgs)):
+        res["fc"][ci] = nums[2 * ci][1:]
+        res["load"][ci] = nums[2 * ci + 1][1:]
+        res["totals"]["find_class"] += nums[2 * ci][0]
+        res["totals"]["pickle_load"] += nums[2 * ci + 1][0]
+    res["pid"] = nums[2 * len(cfgs)][1:]
+    res["totals"]["persistent_load"] = nums[2 * len(cfgs)][0]
+    res["fc_absent"] = nums[2 * len(cfgs) + 1][1:]
+    res["totals"]["find_class"] += nums[2 * len(cfgs) + 1][0]
+    return res, None
+
+
+def tie_converse(ctx, case, res, doc_allow):
+    """the converse clause on one real load: a lookup of an allow-listed name must not be answered with ForbiddenModule"""
+    for m, n, returned in res["calls"]:
+        if ("%s.%s" % (m, n)) in doc_allow and not returned and res["exc"] == "ForbiddenModule":
+            ctx.fail(dict(case, converse=True, looked_up=[m, n]),
+                     "pickle_load forbids %s.%s although it is on the allow-list (SAFE_TO_IMPORT | safe_to_import)" % (m, n))
+
+
+def tie_decision_case(ctx, ci, cfg, m, n):
+    """one (module, name) pair judged like a case of the decision stream: direct oracle + correspondence case"""
+    from deepdiff.serialization import _RestrictedUnpickler, ForbiddenModule
+    cname, arg, _coq = cfg
+    u = _RestrictedUnpickler(io.BytesIO(b"N."), safe_to_import=arg)
+    try:
+        u.find_class(m, n)
+        verdict = "resolved"
+    except ForbiddenModule:
+        verdict = "forbidden"
+    except BaseException as e:  # noqa
+        verdict = "passed:" + type(e).__name__
+    member = ("%s.%s" % (m, n)) in effective_allow_py(arg)
+    case = {"kind": "decision", "config": cname, "safe_to_import": repr(arg), "module": m, "name": n, "observed": verdict,
+            "found_by": "source tie: generated and hand-written find_class differ on this pair"}
+    ctx.seen(("tie-dec", cname, m, n), nontrivial=verdict != "forbidden")
+    if verdict == "resolved" and not member:
+        ctx.fail(case, "find_class resolved %s.%s which is neither in SAFE_TO_IMPORT nor in safe_to_import" % (m, n))
+    elif verdict != "forbidden" and not member:
+        ctx.fail(case, "find_class did not raise ForbiddenModule for the non-member %s.%s (%s)" % (m, n, verdict))
+    elif verdict == "forbidden" and member:
+        ctx.fail(case, "find_class forbids %s.%s although it is on the allow-list" % (m, n))
+    return ("allowed_names ALLOW%d %s [%s]" % (ci, core.coq_pystr(m), core.coq_pystr(n)), [n] if verdict != "forbidden" else [],
+            {"kind": "decision", "config": cname, "module": m, "name": n, "source_tie": True})
+
+
+def tie_load_case(ctx, ci, cfg, kind, data, fbytes):
+    """one (content, file_obj) variant through the real pickle_load: direct oracle, converse clause, correspondence with h_load"""
+    cname, arg, _coq = cfg
+    content = None if kind == "none" else data if kind == "bytes" else data.decode("ascii")
+    FLAGS["touched"].clear()
+    FLAGS["called"].clear()
+    res = real_load(content, arg, file_obj=None if fbytes is None else io.BytesIO(fbytes), both=True)
+    doc_allow = effective_allow_py(arg)
+    case = {"kind": "tie-load", "config": cname, "safe_to_import": repr(arg), "content_kind": kind, "content_hex": data.hex(),
+            "file_hex": None if fbytes is None else fbytes.hex(),
+            "found_by": "source tie: generated pickle_load and the hand-written model differ on these arguments"}
+    ctx.seen(("tie-load", cname, kind, data, fbytes), nontrivial=bool(res["calls"]))
+    direct_oracle(ctx, case, res, doc_allow)
+    tie_converse(ctx, case, res, doc_allow)
+    obs, wv = real_obs(res, True)
+    targ = "TNone" if kind == "none" else "(TBytes %s)" % coq_bytes(data) if kind == "bytes" else "(TStr %s)" % core.coq_pystr(data.decode("ascii"))
+    expr = "sx_result %s (h_load %s %s %s)" % (core.coq_bool(wv), coq_world(ci), targ,
+                                               "None" if fbytes is None else "(Some %s)" % coq_bytes(fbytes))
+    return (expr, obs, case)
+
+
+def on_source_tie_break(ctx, name, rec):
+    """the tie is not intact: look for a concrete input on which the definitions generated from the current source and the
+    hand-written model differ, and judge it like any generated case (direct oracle -> ctx.fail, model / implementation
+    disagreement -> correspondence break).  Never fails by itself."""
+    out = {"status": rec.get("status")}
+    if rec.get("status") in ("translator-rejected", "generated-model-does-not-compile") or \
+            not os.path.exists(os.path.join(ctx.scratch, "srctie", "PickleGen.vo")):
+        out["searched"] = ("nothing to compare (no generated definitions); the decision, program and byte streams of this run use "
+                           "their thorough-size budgets")
+        return out
+    install_sentinels()
+    try:
+        cfgs = configs()
+        pairs = tie_pairs(cfgs)
+        loads = tie_loads()
+        pids = list(TIE_PIDS)
+        diff, err = _tie_eval(ctx, cfgs, pairs, loads, pids)
+        out["compared"] = {"find_class pairs x configurations": len(pairs) * (len(cfgs) + 1), "pickle_load argument variants x configurations":
+                           len(loads) * len(cfgs), "persistent ids": len(pids) + 6}
+        if diff is None:
+            out["error"] = "the differencing file did not evaluate: " + (err or "")
+            return out
+        out["differences"] = diff["totals"]
+        cases, first = [], []
+        header = world_header(cfgs) + "\n" + H_LOAD_DEF
+        budget = 6          # differing inputs judged on the implementation, per definition and configuration
+        for ci, idxs in sorted(diff["fc"].items()):
+            for i in idxs[:budget]:
+                m, n = pairs[i]
+                first.append({"definition": "find_class", "config": cfgs[ci][0], "module": m, "name": n})
+                cases.append(tie_decision_case(ctx, ci, cfgs[ci], m, n))
+                c = program_case(ctx, ci, cfgs[ci], global_payload(m, n), [], [], True,
+                                 {"kind": "program", "proto": 0, "mutated": False, "hostile": 0.0, "source_tie": True})
+                if c is not None:
+                    tie_converse(ctx, c[2], real_load(bytes.fromhex(c[2]["bytes_hex"]), cfgs[ci][1]), effective_allow_py(cfgs[ci][1]))
+                    cases.append(c)
+        for i in diff["fc_absent"][:budget]:
+            m, n = pairs[i]
+            first.append({"definition": "find_class after __init__ without safe_to_import", "module": m, "name": n})
+            cases.append(tie_decision_case(ctx, 0, cfgs[0], m, n))
+        for ci, idxs in sorted(diff["load"].items()):
+            for i in idxs[:budget]:
+                k, d, f = loads[i]
+                first.append({"definition": "pickle_load", "config": cfgs[ci][0], "content_kind": k, "content_hex": d.hex(),
+                              "file_hex": None if f is None else f.hex()})
+                cases.append(tie_load_case(ctx, ci, cfgs[ci], k, d, f))
+        for i in diff["pid"][:budget]:
+            if i < len(pids):
+                p = pids[i]
+                first.append({"definition": "persistent_load", "pid": p})
+                plain = p and all(32 <= ord(c) < 127 for c in p)
+                ops = [("PERSID", p), ("STOP",)] if plain else [("PROTO", 4), ("SHORT_BINUNICODE", p), ("BINPERSID",), ("STOP",)]
+                for ops_ in (ops, [("PROTO", 4), ("SHORT_BINUNICODE", p), ("BINPERSID",), ("STOP",)]):
+                    c = program_case(ctx, 0, cfgs[0], ops_, [], [], True,
+                                     {"kind": "program", "proto": 0, "mutated": False, "hostile": 0.0, "source_tie": True})
+                    if c is not None:
+                        cases.append(c)
+            else:
+                first.append({"definition": "persistent_load", "pid": "non-str object #%d" % (i - len(pids))})
+        out["first_differences"] = first[:12]
+        out["judged_on_the_implementation"] = len(cases)
+        b0 = len(ctx.breaks)
+        if cases:
+            ctx.coq_cases("c15_source_tie", header, cases, shard=150, label="source tie: inputs on which generated and hand-written model differ")
+        # a differing input that is a property failure or a model / implementation disagreement was found: the ordinary
+        # machinery reports it; otherwise run() escalates its streams
+        out["located_on_the_implementation"] = bool(ctx.failures) or len(ctx.breaks) > b0
+        return out
+    finally:
+        remove_sentinels()
+
+
+# ---------------------------------------------------------------------------
 # known findings
 # ---------------------------------------------------------------------------
 
@@ -2175,11 +2491,18 @@ def run(ctx):
         ctx.coq_cases("c15_defaultworld", world_header(cfgs),
                       [("sx_default_world", [core.sx_sorted(mods), core.sx_sorted([[m, n, k] for m, n, k in found])],
                         {"kind": "default-world"})], label="default world tables")
-        decision_part(ctx, cfgs if ctx.thorough else cfgs[:4], max_modules=None if ctx.thorough else 400)
+        # a source tie that is not intact (the model fragment regenerated from the current source is no longer proved equal to
+        # the hand-written model) escalates the streams that exercise that fragment to their thorough-size budgets
+        tie_rec = ctx.source_ties.get("unpickler") or {}
+        located = bool((tie_rec.get("search") or {}).get("located_on_the_implementation"))
+        big = ctx.thorough or (ctx.tie_broken("unpickler") and not located)
+        if big and not ctx.thorough:
+            ctx.note("escalated", "source tie 'unpickler' not intact: decision / program / byte streams run with thorough-size budgets")
+        decision_part(ctx, cfgs if big else cfgs[:4], max_modules=None if big else 400)
         fixed_programs(ctx, cfgs)
         own_dumps_part(ctx)
-        programs_part(ctx, cfgs, 12000 if ctx.thorough else 2400)
-        bytes_part(ctx, cfgs, 8000 if ctx.thorough else 1200, PROGRAM_BYTES)
+        programs_part(ctx, cfgs, 12000 if big else 2400)
+        bytes_part(ctx, cfgs, 8000 if big else 1200, PROGRAM_BYTES)
     finally:
         remove_sentinels()
 
@@ -2210,6 +2533,19 @@ def replay(ctx, data):
             ctx.evaluations += 1
             if (verdict != "forbidden") != member:
                 ctx.fail(case, "find_class decision differs from allow-list membership for %s.%s" % (m, n))
+        elif case.get("kind") == "tie-load":
+            cfg = [c for c in cfgs if c[0] == case["config"]][0]
+            data = bytes.fromhex(case["content_hex"])
+            content = None if case["content_kind"] == "none" else data if case["content_kind"] == "bytes" else data.decode("ascii")
+            fb = None if case.get("file_hex") is None else io.BytesIO(bytes.fromhex(case["file_hex"]))
+            FLAGS["touched"].clear()
+            FLAGS["called"].clear()
+            res = real_load(content, cfg[1], file_obj=fb, both=True)
+            print("replay: pickle_load(content=%r, file_obj=%s, safe_to_import=%r): outcome=%s find_class calls=%r" % (
+                content, "None" if fb is None else "BytesIO(%r)" % bytes.fromhex(case["file_hex"]), cfg[1], res["exc"] or "ok", res["calls"]))
+            ctx.evaluations += 1
+            direct_oracle(ctx, case, res, effective_allow_py(cfg[1]))
+            tie_converse(ctx, case, res, effective_allow_py(cfg[1]))
         elif "bytes_hex" in case:
             cfg = [c for c in cfgs if c[0] == case["config"]][0]
             FLAGS["touched"].clear()
@@ -2254,6 +2590,8 @@ def replay(ctx, data):
                         or (res["cls"] == "ok" and r2["exc"] in ("ForbiddenModule", "ModuleNotFoundError")) \
                         or [c[2] for c in r2["calls"]] != [c[2] for c in res["calls"]]:
                     ctx.fail(case, "Delta(%s) does not go through the same restricted load as pickle_load" % case["entry"])
+            if case.get("converse"):
+                tie_converse(ctx, case, res, allow)
             bad = [(m, n) for m, n, r in res["calls"] if "%s.%s" % (m, n) not in allow]
             if any(r for m, n, r in res["calls"] if "%s.%s" % (m, n) not in allow) or (bad and res["exc"] != "ForbiddenModule") \
                     or FLAGS["touched"] or FLAGS["called"]:
